@@ -47,8 +47,8 @@ TRUSTED = ['Python hash() of int tuples (the theorem is about the value handed t
 CHUNK = 400
 REQUESTS_NEED_IMPL = True
 
-OBJ = ['g%d' % i for i in range(16)]
-ATT = ['m%d' % i for i in range(16)]
+OBJ = ['g%d' % i for i in range(24)]
+ATT = ['m%d' % i for i in range(96)]
 MINERS = ('close_by_one', 'close_by_one_objectwise', 'close_by_one_objectwise_fbarray', 'lindig_algorithm', 'sofia')
 PMINERS = ('close_by_one', 'close_by_one_objectwise', 'close_by_one_objectwise_fbarray', 'sofia')
 FORMAL_KEYS = ['extent_i', 'extent', 'intent_i', 'intent', 'context_hash', 'is_monotone', 'measures', 'support', 'foo',
@@ -76,17 +76,93 @@ def _fo_random(rng, n, cnt):
     return [[G.random_sel(rng, n), rng.randint(0, 1), rng.randint(0, 1)] for _ in range(cnt)]
 
 
-def _order_case(rows, be, stream, fo):
-    return dict(kind='order', stream=stream, be=be, rows=rows, miners=list(MINERS), fo=fo)
+def _fo_repeated(n):
+    """from_objects calls whose argument mentions an object more than once (is_extent=False: the object SET is what counts)"""
+    out = []
+    for i in range(n):
+        out.append([[i, i], i % 2, 0])
+    if n > 1:
+        out.append([list(range(n))[::-1] + [0], 0, 0])
+        out.append([[n - 1, 0, n - 1, 0], 1, 0])
+    return out
 
 
-def _from_cases(rows, be, stream, sels):
+ARGFORMS = ('list', 'tuple', 'gen', 'iter', 'map', 'set', 'frozenset', 'dictkeys')
+
+
+def _repeated_sels(n, maxlen):
+    """all index sequences over range(n) of length <= maxlen in which some object occurs at least twice"""
+    for k in range(2, maxlen + 1):
+        for seq in itertools.product(range(n), repeat=k):
+            if len(set(seq)) < k:
+                yield list(seq)
+
+
+def _random_repeated(rng, n):
+    sel = G.random_sel(rng, n) or [rng.randrange(n)]
+    for _ in range(rng.randint(1, 3)):
+        sel.insert(rng.randint(0, len(sel)), rng.choice(sel))
+    return sel
+
+
+def _order_case(rows, be, stream, fo, paths=(), cap=None):
+    c = dict(kind='order', stream=stream, be=be, rows=rows, miners=list(MINERS), fo=fo)
+    if paths:
+        c['paths'] = list(paths)        # further ways to obtain concepts: 'lattice', 'json'
+    if cap:
+        c['cap'] = cap                  # big tables: only the generator miners, first `cap` concepts each
+        c['miners'] = ['close_by_one_objectwise', 'close_by_one_objectwise_fbarray']
+    return c
+
+
+def _from_cases(rows, be, stream, sels, extents=(0, 1), forms=None):
     n, m = len(rows), len(rows[0])
+    k = 0
     for sel in sels:
         for by_name in (0, 1):
-            for ie in (0, 1):
-                yield dict(kind='from_objects', stream=stream, be=be, rows=rows, objs=OBJ[:n], attrs=ATT[:m],
-                           sel=sel, by_name=by_name, is_extent=ie, is_monotone=0)
+            for ie in extents:
+                c = dict(kind='from_objects', stream=stream, be=be, rows=rows, objs=OBJ[:n], attrs=ATT[:m],
+                         sel=sel, by_name=by_name, is_extent=ie, is_monotone=0)
+                if forms:
+                    c['argform'] = forms[k % len(forms)]
+                    k += 1
+                yield c
+
+
+def _history_scripts(rows):
+    """mutation histories through PUBLIC setters between two uses of one context object"""
+    n, m = len(rows), len(rows[0])
+    rows2 = [[1 - v for v in r] for r in rows]                       # complement table, same shape
+    rows3 = [list(r) for r in rows[1:]] + [list(rows[0])] if n > 1 else [[1 - rows[0][0]] + list(rows[0][1:])]
+    return [
+        [['objs', 'h']],                                           # rename the objects
+        [['attrs', 'b']],                                          # rename the attributes
+        [['data', rows2]],                                         # K.data.data = other table of the same shape
+        [['data', rows3]],
+        [['objs', 'h'], ['objs', 'g']],                            # net zero: the original names are restored
+        [['data', rows2], ['data', rows]],                         # net zero on the table
+        [['objs', 'h'], ['attrs', 'b'], ['data', rows2]],
+        [['none']],                                                # control: no mutation, everything comparable
+    ]
+
+
+def _history_case(rows, be, stream, script, fo1, fo2):
+    return dict(kind='history', stream=stream, be=be, rows=rows, script=script, fo1=fo1, fo2=fo2)
+
+
+def _phistory_scripts(cols):
+    n = len(cols[0])
+    col2 = [[a + 1, b + 2] for a, b in cols[0]]
+    col3 = list(cols[0][1:]) + [cols[0][0]] if n > 1 else [[cols[0][0][0], cols[0][0][1] + 1]]
+    return [
+        [['objs', 'h']],
+        [['attrs', 'b']],
+        [['ps_data', 0, col2]],                                    # K.pattern_structures[0].data = ...
+        [['pattern_structures', [col3] + [list(c) for c in cols[1:]]]],   # K.pattern_structures = [new objects]
+        [['objs', 'h'], ['objs', 'g']],
+        [['ps_data', 0, col2], ['ps_data', 0, [list(v) for v in cols[0]]]],
+        [['none']],
+    ]
 
 
 def _cross_case(rows, rows2, be, stream, objs2=None):
@@ -120,6 +196,11 @@ def _pcases(cols, stream, fo=None, cols2=None, do_from=True):
             for by_name in (0, 1):
                 for ie in (0, 1):
                     yield dict(kind='pfrom', stream=stream, cols=cols, sel=sel, by_name=by_name, is_extent=ie, is_monotone=0)
+        # the same object set written with repetitions / handed over as a one-shot iterable or a set
+        reps = list(_repeated_sels(n, min(n + 1, 3))) if fo is None else []
+        for k, sel in enumerate(reps):
+            yield dict(kind='pfrom', stream=stream.replace('exhaustive-pattern', 'repeated-pattern'), cols=cols, sel=sel,
+                       by_name=k % 2, is_extent=0, is_monotone=0, argform=ARGFORMS[k % 5])
 
 
 def _random_cols(rng, nmax, kmax):
@@ -149,7 +230,9 @@ def _malformed(rows, be, rng):
     if sel:
         dup = list(sel)
         dup.insert(rng.randint(0, len(dup)), rng.choice(sel))
-        yield dict(base, sel=dup, by_name=rng.randint(0, 1), is_extent=rng.randint(0, 1))
+        yield dict(base, sel=dup, by_name=rng.randint(0, 1), is_extent=1)
+        yield dict(base, stream='repeated', sel=dup, by_name=rng.randint(0, 1), is_extent=0,
+                   argform=rng.choice(ARGFORMS[:5]))
     # duplicated object names in the context: list.index takes the FIRST occurrence
     if n > 1:
         objs = list(OBJ[:n])
@@ -177,10 +260,31 @@ def gen(tier, seed, boost=False):
     # ---- exhaustive small scope -------------------------------------------------------------------
     for rows in G.tables_upto(3, 3):
         n = len(rows)
+        rot = BACKENDS[(sum(map(sum, rows)) + n) % 3]
         for be in BACKENDS:
-            yield _order_case(rows, be, 'exhaustive', _fo_all(n))
+            yield _order_case(rows, be, 'exhaustive', _fo_all(n) + _fo_repeated(n),
+                              paths=('lattice', 'json') if be == rot else ())
             yield from _from_cases(rows, be, 'exhaustive', list(G.ordered_sublists(range(n))))
+        # (H2/H3) the same object set written down differently: repetitions, one-shot iterables, sets
+        yield from _from_cases(rows, rot, 'repeated', list(_repeated_sels(n, min(n + 1, 3))), extents=(0,),
+                               forms=ARGFORMS[:5])
+        yield from _from_cases(rows, rot, 'argforms', list(G.ordered_sublists(range(n))),
+                               forms=ARGFORMS[1:])
     small = list(G.tables_upto(2, 2))
+    # (H1) derive - mutate the context through public setters - derive again; compare across and within
+    for i, r1 in enumerate(small):
+        n1 = len(r1)
+        for k, script in enumerate(_history_scripts(r1)):
+            for be in BACKENDS:
+                fo1 = [[list(range(n1)), 0, 0], [[0], 1, 0], [[], 0, 0], [[n1 - 1], 0, 1]]
+                fo2 = [[[0], 0, 0], [list(range(n1))[::-1], 1, 0], [[], 1, 0], [[n1 - 1], 1, 1]]
+                yield _history_case(r1, be, 'history', script, fo1, fo2)
+    for k in range(120):
+        rows = G.random_table(rng, 4, 4, nmin=2)
+        n1 = len(rows)
+        scripts = _history_scripts(rows)
+        yield _history_case(rows, BACKENDS[k % 3], 'history', scripts[k % len(scripts)],
+                            _fo_random(rng, n1, 3) + [[list(range(n1)), 0, 0]], _fo_random(rng, n1, 4) + [[[0], 1, 0]])
     for i, r1 in enumerate(small):
         for j, r2 in enumerate(small):
             if i != j:
@@ -190,6 +294,19 @@ def gen(tier, seed, boost=False):
     for n in (1, 2, 3):
         for col in itertools.product(GRID_IV, repeat=n):
             yield from _pcases([list(col)], 'exhaustive-pattern')
+    for n in (1, 2):
+        for col in itertools.product(GRID_IV, repeat=n):
+            cols = [[list(v) for v in col]]
+            for script in _phistory_scripts(cols):
+                yield dict(kind='phistory', stream='history-pattern', cols=cols, script=script,
+                           fo1=[[list(range(n)), 0, 0], [[0], 1, 0], [[], 0, 0]],
+                           fo2=[[[0], 0, 0], [list(range(n))[::-1], 1, 0], [[n - 1], 1, 1]])
+    for k in range(60):
+        cols = _random_cols(rng, 4, 2)
+        n = len(cols[0])
+        scripts = _phistory_scripts(cols)
+        yield dict(kind='phistory', stream='history-pattern', cols=cols, script=scripts[k % len(scripts)],
+                   fo1=_fo_random(rng, n, 3) + [[[0], 0, 0]], fo2=_fo_random(rng, n, 3) + [[[0], 1, 0]])
     # pattern cross-context: every pair of distinct 2-object one-column contexts
     two = [[list(c)] for c in itertools.product(GRID_IV, repeat=2)]
     for i, c1 in enumerate(two):
@@ -213,9 +330,23 @@ def gen(tier, seed, boost=False):
             yield _cross_case(rows, rows2, be, 'random-cross')
         for bb in BACKENDS:
             yield from _malformed(rows, bb, rng)
+        yield from _from_cases(rows, be, 'repeated', [_random_repeated(rng, n) for _ in range(2)], extents=(0,),
+                               forms=[ARGFORMS[(k + j) % 5] for j in range(4)])
+        if k % 3 == 0:
+            # (H3) shape extremes: two-digit object indexes, more than 64 attributes
+            wn, wm = rng.randint(13, 16), rng.choice((2, 5, 65, 70))
+            wide = G.random_table(rng, wn, wm, nmin=wn, mmin=wm)
+            wb = BACKENDS[(k // 3) % 3]
+            wsel = [G.random_sel(rng, wn) for _ in range(3)] + [[wn - 1, 10, 1], [11, 1, 10]]
+            yield from _from_cases(wide, wb, 'wide', wsel, forms=ARGFORMS[:5])
+            yield from _from_cases(wide, wb, 'wide', [_random_repeated(rng, wn)], extents=(0,))
+            yield _order_case(wide, wb, 'wide', _fo_random(rng, wn, 16) + [[_random_repeated(rng, wn), k % 2, 0]], cap=12)
         if k % 2 == 0:
             cols = _random_cols(rng, 5, 3)
             npc = len(cols[0])
+            for j in range(2):
+                yield dict(kind='pfrom', stream='repeated-pattern', cols=cols, sel=_random_repeated(rng, npc),
+                           by_name=j, is_extent=0, is_monotone=0, argform=ARGFORMS[(k + j) % 5])
             cols2 = _random_cols(rng, 5, 3) if k % 4 == 0 else None
             if cols2 == cols:
                 cols2 = None
@@ -304,16 +435,27 @@ def _fkey(c):
     return (tuple(c.extent_i), tuple(c.intent_i), c.context_hash, bool(c.is_monotone))
 
 
-def _formal_items(K, miners, fo, tag=''):
+def _formal_items(K, miners, fo, tag='', cap=None, paths=()):
     from fcapy.lattice.formal_concept import FormalConcept
     items = []
     for mn in miners:
-        for c in _miner(mn)(K):
+        it = _miner(mn)(K)
+        for c in (itertools.islice(it, cap) if cap else it):
             items.append((tag + mn, c))
     names = list(K.object_names)
     for sel, by_name, ie in fo:
         arg = [names[i] for i in sel] if by_name else list(sel)
         items.append((tag + 'from_objects', FormalConcept.from_objects(arg, K, is_extent=bool(ie))))
+    if 'lattice' in paths:
+        from fcapy.lattice import ConceptLattice
+        for c in ConceptLattice.from_context(K):                      # default algorithm (Lindig)
+            items.append((tag + 'lattice', c))
+        for c in ConceptLattice.from_context(K, algo='CbO'):
+            items.append((tag + 'lattice-cbo', c))
+    if 'json' in paths:
+        for src, c in list(items[:4]) + list(items[-3:]):
+            js = c.write_json(list(K.object_names), list(K.attribute_names))
+            items.append((tag + 'read_json', FormalConcept.read_json(json_data=js)))
     return items
 
 
@@ -351,6 +493,137 @@ def _pattern_items(K, miners, fo, tag=''):
         arg = [names[i] for i in sel] if by_name else list(sel)
         items.append((tag + 'from_objects', PatternConcept.from_objects(arg, K, is_extent=bool(ie))))
     return items
+
+
+def _pfields(x, K, k):
+    ii = [None if x.intent_i[j] is None else [_num(x.intent_i[j][0]), _num(x.intent_i[j][1])] for j in range(k)]
+    names_ok = [x.intent[a] == x.intent_i[j] for j, a in enumerate(K.attribute_names)]
+    return {'ok': dict(extent_i=ints(x.extent_i), extent=[str(s) for s in x.extent], intent_i=ii,
+                       context_hash=None if x.context_hash is None else int(x.context_hash)),
+            'support': int(x.support), 'intent_names_ok': bool(all(names_ok)) and len(x.intent) == k}
+
+
+def _ffields(x):
+    return dict(extent_i=ints(x.extent_i), extent=[str(s) for s in x.extent], intent_i=ints(x.intent_i),
+                intent=[str(s) for s in x.intent], context_hash=None if x.context_hash is None else int(x.context_hash),
+                is_monotone=bool(x.is_monotone))
+
+
+def _history_out(items, derived, pattern):
+    """pool of a history case: one representative per (phase, defining fields); `th` = hash_fixed() of the context
+    content the concept was derived from (the TRUE context identity), `h` = the context_hash the concept carries"""
+    keyf = _pkey if pattern else _fkey
+    tagged = [(src, c) for src, c, ph, th in items]
+    meta = {id(c): (ph, th) for src, c, ph, th in items}
+    pool, srcs, bad = _dedupe(tagged, lambda c: (meta[id(c)][0],) + keyf(c))
+    out = _pool_out(pool, srcs, bad, pattern)
+    for rec, c in zip(out['pool'], pool):
+        rec['phase'], rec['th'] = meta[id(c)]
+    out['derived'] = derived
+    return out
+
+
+def _history_impl(c):
+    """(H1) one FormalContext OBJECT: derive concepts, change the context in place through its public setters, derive
+    again; finally derive from a freshly built context with the current content."""
+    from fcapy.context import FormalContext
+    from fcapy.lattice.formal_concept import FormalConcept
+    rows = [list(r) for r in c['rows']]
+    n, m = len(rows), len(rows[0])
+    st = dict(rows=rows, objs=OBJ[:n], attrs=ATT[:m])
+    K = FormalContext(data=[[bool(v) for v in r] for r in rows], object_names=list(st['objs']),
+                      attribute_names=list(st['attrs']), backend=c['be'])
+    items, derived = [], []
+
+    def derive(Kx, fo, phase, extra):
+        first = None
+        for sel, by_name, ie in fo:
+            arg = [st['objs'][i] for i in sel] if by_name else list(sel)
+            x = FormalConcept.from_objects(arg, Kx, is_extent=bool(ie))
+            first = first or x
+            th = int(Kx.hash_fixed())
+            items.append((f'P{phase}:from_objects', x, phase, th))
+            derived.append(dict(phase=phase, sel=list(sel), by_name=by_name, is_extent=ie, h=th, ok=_ffields(x),
+                                rows=[list(r) for r in st['rows']], objs=list(st['objs']), attrs=list(st['attrs'])))
+        th = int(Kx.hash_fixed())
+        for mn in extra:
+            for x in _miner(mn)(Kx):
+                items.append((f'P{phase}:{mn}', x, phase, th))
+        if first is not None:      # written down by hand with the context's own hash, as the library's tests do
+            items.append((f'P{phase}:hand-built', FormalConcept(first.extent_i, first.extent, first.intent_i, first.intent,
+                                                                context_hash=Kx.hash_fixed()), phase, th))
+
+    derive(K, c['fo1'], 0, ['close_by_one'])
+    for step in c['script']:
+        if step[0] == 'objs':
+            st['objs'] = [step[1] + str(i) for i in range(n)]
+            K.object_names = list(st['objs'])
+        elif step[0] == 'attrs':
+            st['attrs'] = [step[1] + str(j) for j in range(m)]
+            K.attribute_names = list(st['attrs'])
+        elif step[0] == 'data':
+            st['rows'] = [list(r) for r in step[1]]
+            K.data.data = [[bool(v) for v in r] for r in st['rows']]
+    derive(K, c['fo2'], 1, ['lindig_algorithm', 'close_by_one_objectwise'])
+    K2 = FormalContext(data=[[bool(v) for v in r] for r in st['rows']], object_names=list(st['objs']),
+                       attribute_names=list(st['attrs']), backend=c['be'])
+    derive(K2, c['fo2'][:2], 2, [])
+    return _history_out(items, derived, False)
+
+
+def _phistory_impl(c):
+    """(H1) the same for one MVContext object with IntervalPS columns"""
+    from fcapy.mvcontext import PS
+    from fcapy.lattice.pattern_concept import PatternConcept
+    cols = [[list(v) for v in col] for col in c['cols']]
+    n, k = len(cols[0]), len(cols)
+    st = dict(cols=cols, objs=OBJ[:n], attrs=ATT[:k])
+    K = _mvcontext(cols)
+    items, derived = [], []
+
+    def derive(Kx, fo, phase, extra):
+        first = None
+        for sel, by_name, ie in fo:
+            arg = [st['objs'][i] for i in sel] if by_name else list(sel)
+            x = PatternConcept.from_objects(arg, Kx, is_extent=bool(ie))
+            first = first or x
+            th = int(Kx.hash_fixed())
+            items.append((f'P{phase}:from_objects', x, phase, th))
+            d = _pfields(x, Kx, k)
+            d.update(phase=phase, sel=list(sel), by_name=by_name, is_extent=ie, h=th,
+                     cols=[[list(v) for v in col] for col in st['cols']], objs=list(st['objs']))
+            derived.append(d)
+        th = int(Kx.hash_fixed())
+        for mn in extra:
+            for x in _miner(mn)(Kx):
+                items.append((f'P{phase}:{mn}', x, phase, th))
+        if first is not None:
+            items.append((f'P{phase}:hand-built',
+                          PatternConcept(first.extent_i, first.extent, first.intent_i, first.intent, Kx.pattern_types,
+                                         Kx.attribute_names, context_hash=Kx.hash_fixed()), phase, th))
+
+    derive(K, c['fo1'], 0, ['close_by_one'])
+    for step in c['script']:
+        if step[0] == 'objs':
+            st['objs'] = [step[1] + str(i) for i in range(n)]
+            K.object_names = list(st['objs'])
+        elif step[0] == 'attrs':
+            st['attrs'] = [step[1] + str(j) for j in range(k)]
+            K.attribute_names = list(st['attrs'])
+        elif step[0] == 'ps_data':
+            st['cols'][step[1]] = [list(v) for v in step[2]]
+            K.pattern_structures[step[1]].data = [tuple(v) for v in step[2]]
+        elif step[0] == 'pattern_structures':
+            st['cols'] = [[list(v) for v in col] for col in step[1]]
+            K.pattern_structures = [PS.IntervalPS([tuple(v) for v in col], name=K.pattern_structures[j].name)
+                                    for j, col in enumerate(st['cols'])]
+    derive(K, c['fo2'], 1, ['close_by_one_objectwise'])
+    from fcapy.mvcontext import MVContext
+    K2 = MVContext(data=[[tuple(st['cols'][j][g]) for j in range(k)] for g in range(n)],
+                   pattern_types={a: PS.IntervalPS for a in st['attrs']}, object_names=list(st['objs']),
+                   attribute_names=list(st['attrs']))
+    derive(K2, c['fo2'][:2], 2, [])
+    return _history_out(items, derived, True)
 
 
 def _num(x):
@@ -411,7 +684,8 @@ def impl(c):
     if kind == 'order':
         n, m = len(c['rows']), len(c['rows'][0])
         K = make_context(c['rows'], c['be'], OBJ[:n], ATT[:m])
-        return _pool_out(*_dedupe(_formal_items(K, c['miners'], c['fo']), _fkey), False)
+        return _pool_out(*_dedupe(_formal_items(K, c['miners'], c['fo'], cap=c.get('cap'), paths=c.get('paths', ())),
+                                  _fkey), False)
     if kind == 'cross':
         n, m = len(c['rows']), len(c['rows'][0])
         n2, m2 = len(c['rows2']), len(c['rows2'][0])
@@ -448,30 +722,32 @@ def impl(c):
     if kind == 'from_objects':
         K = make_context(c['rows'], c['be'], c['objs'], c['attrs'])
         h = int(K.hash_fixed())
-        arg = _arg(c, c['objs'])
+        arg, order, watch = _argobj(c, c['objs'])
         try:
             x = FormalConcept.from_objects(arg, K, is_extent=bool(c['is_extent']), is_monotone=bool(c['is_monotone']))
-            return {'h': h, 'ok': dict(extent_i=ints(x.extent_i), extent=[str(s) for s in x.extent],
+            return {'h': h, 'arg_order': order, 'arg_mutated': watch is not None and watch != order,
+                    'support': int(x.support), 'ok': dict(extent_i=ints(x.extent_i), extent=[str(s) for s in x.extent],
                                        intent_i=ints(x.intent_i), intent=[str(s) for s in x.intent],
                                        context_hash=None if x.context_hash is None else int(x.context_hash),
                                        is_monotone=bool(x.is_monotone)),
                     'types': [type(x.extent_i).__name__, type(x.intent_i).__name__]}
         except Exception as e:
-            return {'h': h, 'err': exc_name(e)}
+            return {'h': h, 'arg_order': order, 'err': exc_name(e)}
     if kind == 'pfrom':
         K = _mvcontext(c['cols'])
         h = int(K.hash_fixed())
-        arg = _arg(c, list(K.object_names))
+        arg, order, watch = _argobj(c, list(K.object_names))
         try:
             x = PatternConcept.from_objects(arg, K, is_extent=bool(c['is_extent']), is_monotone=bool(c['is_monotone']))
-            k = len(c['cols'])
-            ii = [None if x.intent_i[j] is None else [_num(x.intent_i[j][0]), _num(x.intent_i[j][1])] for j in range(k)]
-            names_ok = [x.intent[a] == x.intent_i[j] for j, a in enumerate(K.attribute_names)]
-            return {'h': h, 'ok': dict(extent_i=ints(x.extent_i), extent=[str(s) for s in x.extent], intent_i=ii,
-                                       context_hash=None if x.context_hash is None else int(x.context_hash)),
-                    'intent_names_ok': bool(all(names_ok)) and len(x.intent) == k}
+            out = _pfields(x, K, len(c['cols']))
+            out.update(h=h, arg_order=order, arg_mutated=watch is not None and watch != order)
+            return out
         except Exception as e:
-            return {'h': h, 'err': exc_name(e)}
+            return {'h': h, 'arg_order': order, 'err': exc_name(e)}
+    if kind == 'history':
+        return _history_impl(c)
+    if kind == 'phistory':
+        return _phistory_impl(c)
     raise ValueError('unknown case kind ' + str(kind))
 
 
@@ -485,6 +761,30 @@ def _arg(c, names):
     return list(sel)
 
 
+def _argobj(c, names):
+    """(the object handed to from_objects, the order in which it yields its elements, the list to watch for mutation)"""
+    a = _arg(c, names)
+    form = c.get('argform', 'list')
+    if form == 'tuple':
+        return tuple(a), list(a), None
+    if form == 'gen':
+        return (x for x in a), list(a), None
+    if form == 'iter':
+        return iter(a), list(a), None
+    if form == 'map':
+        return map(lambda x: x, a), list(a), None
+    if form == 'set':
+        o = set(a)
+        return o, list(o), None
+    if form == 'frozenset':
+        o = frozenset(a)
+        return o, list(o), None
+    if form == 'dictkeys':
+        o = dict.fromkeys(a).keys()
+        return o, list(o), None
+    return a, list(a), a
+
+
 # ------------------------------------------------------------------------------------------- Lean side
 
 def requests(c, io):
@@ -496,17 +796,37 @@ def requests(c, io):
                      pool=[dict(e=p['e'], h=p['h'], m=p['m']) for p in io['pool']],
                      impl_le=io['le'], impl_lt=io['lt'], impl_eq=io['eq'],
                      impl_hash=[h if isinstance(h, int) else 0 for h in io['hash']])]
+    if kind in ('history', 'phistory'):
+        if 'pool' not in io:
+            return []
+        # the context a concept belongs to is the CONTENT it was derived from: the spec is computed with the true hash
+        reqs = [dict(op='C08.cmp', kind='pattern' if kind == 'phistory' else 'formal',
+                     pool=[dict(e=p['e'], h=p['th'], m=p['m']) for p in io['pool']],
+                     impl_le=io['le'], impl_lt=io['lt'], impl_eq=io['eq'],
+                     impl_hash=[h if isinstance(h, int) else 0 for h in io['hash']])]
+        for d in io['derived']:
+            arg = [d['objs'][i] for i in d['sel']] if d['by_name'] else list(d['sel'])
+            if kind == 'history':
+                reqs.append(dict(op='C08.from_objects', be=SHORT[c['be']], rows=d['rows'], w=len(d['rows'][0]),
+                                 objs=d['objs'], attrs=d['attrs'], h=d['h'],
+                                 arg={'names': arg} if d['by_name'] else {'idx': arg},
+                                 is_extent=bool(d['is_extent']), is_monotone=False))
+            else:
+                reqs.append(dict(op='C08.pfrom', cols=d['cols'], objs=d['objs'], h=d['h'],
+                                 arg={'names': arg} if d['by_name'] else {'idx': arg},
+                                 is_extent=bool(d['is_extent']), is_monotone=False))
+        return reqs
     if kind == 'setattr':
         return [dict(op='C08.setattr', kind=c['ckind'], key=c['key'], init=False, mode=c.get('mode', 'assign'),
                      present=bool(io.get('present', True)))]
     if kind == 'from_objects':
-        arg = _arg(c, c['objs'])
+        arg = io.get('arg_order', _arg(c, c['objs']))
         return [dict(op='C08.from_objects', be=SHORT[c['be']], rows=c['rows'], w=len(c['rows'][0]), objs=c['objs'],
                      attrs=c['attrs'], h=io.get('h', 0), arg={'names': arg} if c.get('by_name') else {'idx': arg},
                      is_extent=bool(c['is_extent']), is_monotone=bool(c['is_monotone']))]
     if kind == 'pfrom':
         n = len(c['cols'][0])
-        arg = _arg(c, OBJ[:n])
+        arg = io.get('arg_order', _arg(c, OBJ[:n]))
         return [dict(op='C08.pfrom', cols=c['cols'], objs=OBJ[:n], h=io.get('h', 0),
                      arg={'names': arg} if c.get('by_name') else {'idx': arg},
                      is_extent=bool(c['is_extent']), is_monotone=bool(c['is_monotone']))]
@@ -524,8 +844,8 @@ def _judge_cmp(c, io, r, pattern):
         return _bad('correspondence', 'empty-pool', 'no concept was produced')
     if not all(r['nodup']):
         i = r['nodup'].index(0)
-        return _bad('correspondence', 'dup-extent', f'{pool[i]["src"]} produced an extent with duplicates: {pool[i]["e"]} '
-                                                    '(outside the scope of the theorems)')
+        return _bad('property', 'dup-extent', f'{pool[i]["src"]} produced a concept whose extent lists an object twice: '
+                                              f'{pool[i]["e"]} (not the closure of an object SET; support, ==, hash are off)')
     if io.get('twins_bad'):
         return _bad('property', 'same-fields-differ', 'two concept objects with identical fields do not compare equal / hash '
                     'equally: ' + '; '.join(io['twins_bad']))
@@ -551,6 +871,10 @@ def _judge_cmp(c, io, r, pattern):
                         why = 'different contexts' if pool[i]['h'] != pool[j]['h'] else 'different monotonicity'
                         return _bad('property', f'{nm}-not-refused',
                                     f'{desc(i)} {opname[nm]} {desc(j)} returned {iv} instead of raising ({why})')
+                elif isinstance(iv, str):
+                    return _bad('property', f'{nm}-refused-wrongly',
+                                f'{desc(i)} {opname[nm]} {desc(j)} raised {iv} although both concepts belong to the same '
+                                f'context (and monotonicity); extent inclusion says {bool(sv)}')
                 elif iv != sv:
                     return _bad('property', f'{nm}-wrong',
                                 f'{desc(i)} {opname[nm]} {desc(j)} gave {iv}; extent inclusion says {bool(sv)}')
@@ -582,12 +906,111 @@ def _closure_iv(cols, A):
     return intent, ext
 
 
+def _judge_from(malformed, objs, attrs, is_extent, io, r):
+    """one FormalConcept.from_objects call against the Lean model and Spec (ext (int A), int A)"""
+    model, spec = r['model'], r['spec']
+    if 'err' in model:
+        if io.get('err') == model['err']:
+            return dict(ok=True)
+        return _bad('correspondence' if malformed else 'harness', 'from-err',
+                    f'model raises {model["err"]}, implementation gave {io}')
+    if 'err' in io:
+        return _bad('correspondence' if malformed else 'property', 'from-raised',
+                    f'from_objects raised {io["err"]}; the closure is {spec}')
+    got, mo = io['ok'], model['ok']
+    if not malformed:
+        if spec is None or mo['extent_i'] != spec['extent_i'] or mo['intent_i'] != spec['intent_i']:
+            return _bad('harness', 'model-spec', f'model {mo} != spec {spec}')
+        if not is_extent and len(set(got['extent_i'])) != len(got['extent_i']):
+            return _bad('property', 'dup-extent',
+                        f'from_objects({io.get("arg_order")}) gave extent_i {got["extent_i"]}: an object is listed twice '
+                        f'(support {io.get("support")}); the closure of the object set is {spec["extent_i"]}')
+        if sorted(got['extent_i']) != sorted(spec['extent_i']) or sorted(got['intent_i']) != sorted(spec['intent_i']):
+            return _bad('property', 'not-closure',
+                        f'from_objects({io.get("arg_order")}) gave extent {got["extent_i"]}, intent {got["intent_i"]}; '
+                        f'closure is {spec["extent_i"]}, {spec["intent_i"]}')
+        if 'support' in io and not is_extent and io['support'] != len(spec['extent_i']):
+            return _bad('property', 'support', f'support {io["support"]} but the closure has {len(spec["extent_i"])} objects')
+        if got['extent'] != [objs[i] for i in got['extent_i']] or got['intent'] != [attrs[j] for j in got['intent_i']]:
+            return _bad('property', 'names', f'names do not match indexes: {got}')
+        if got['context_hash'] != io['h'] or got['is_monotone'] is not False:
+            return _bad('property', 'hash-field', f'the concept carries context_hash {got["context_hash"]} but the context it '
+                                                  f'was derived from has hash_fixed() = {io["h"]} (is_monotone={got["is_monotone"]})')
+    if got != mo:
+        return _bad('correspondence', 'from-fields', f'implementation {got} != model {mo}')
+    if io.get('arg_mutated'):
+        return _bad('correspondence', 'arg-mutated', 'from_objects changed the caller\'s list in place')
+    return dict(ok=True)
+
+
+def _judge_pfrom(cols, objs, arg_order, sel, is_extent, io, r):
+    """one PatternConcept.from_objects call on an all-IntervalPS context"""
+    model = r['model']
+    if 'err' in model:
+        if io.get('err') == model['err']:
+            return dict(ok=True)
+        return _bad('correspondence', 'pfrom-err', f'model raises {model["err"]}, implementation gave {io}')
+    if 'err' in io:
+        return _bad('property', 'pfrom-raised', f'PatternConcept.from_objects raised {io["err"]}')
+    got, mo = io['ok'], model['ok']
+    intent, ext = _closure_iv(cols, sel)
+    want_ext = sorted(sel) if is_extent else ext
+    if not is_extent and len(set(got['extent_i'])) != len(got['extent_i']):
+        return _bad('property', 'dup-extent', f'PatternConcept.from_objects({arg_order}) gave extent_i {got["extent_i"]}: an '
+                                              f'object is listed twice; the closure of the object set is {ext}')
+    if sorted(got['extent_i']) != want_ext or got['intent_i'] != intent:
+        return _bad('property', 'pfrom-not-closure', f'from_objects({arg_order}) gave extent {got["extent_i"]}, intent '
+                                                     f'{got["intent_i"]}; closure is {want_ext}, {intent}')
+    if got['extent'] != [objs[i] for i in got['extent_i']] or not io['intent_names_ok']:
+        return _bad('property', 'pfrom-names', f'names do not match: {got}')
+    if got['context_hash'] != io['h']:
+        return _bad('property', 'hash-field', f'the concept carries context_hash {got["context_hash"]} but the context it was '
+                                              f'derived from has hash_fixed() = {io["h"]}')
+    if got != mo:
+        return _bad('correspondence', 'pfrom-fields', f'implementation {got} != model {mo}')
+    if io.get('arg_mutated'):
+        return _bad('correspondence', 'arg-mutated', 'from_objects changed the caller\'s list in place')
+    return dict(ok=True)
+
+
+def _judge_history(c, io, rep):
+    """(H1) concepts derived from one context OBJECT before / after in-place public mutations, and from a fresh context
+    with the final content.  Which context a concept belongs to is decided by the content it was derived from
+    (`th` = hash_fixed() at derivation time): same content -> ordered by extent inclusion, different -> refused."""
+    pattern = c['kind'] == 'phistory'
+    if not rep:
+        return _bad('property', 'pool-failed', f'the history could not be executed: {io}')
+    script = ' ; '.join(str(st[0]) for st in c['script'])
+    io2 = dict(io, pool=[dict(p, h=p['th'], src=f'{p["src"]}') for p in io['pool']])
+    v = _judge_cmp(c, io2, rep[0], pattern)
+    if not v['ok'] and v['kind'] == 'property':
+        v['detail'] = (f'history [derive (P0); {script}; derive (P1); fresh context with the final content (P2)], @ = hash_fixed() '
+                       f'of the content the concept was derived from: ' + v['detail'])
+        return v
+    for p in io['pool']:
+        if p['h'] != p['th']:
+            return _bad('property', 'stale-context-hash',
+                        f'history [{script}]: {p["src"]}{p["e"]} carries context_hash {p["h"]} but was derived from a context '
+                        f'whose hash_fixed() is {p["th"]}')
+    for d, r in zip(io['derived'], rep[1:]):
+        if pattern:
+            w = _judge_pfrom(d['cols'], d['objs'], d['sel'], d['sel'], d['is_extent'], d, r)
+        else:
+            w = _judge_from(False, d['objs'], d['attrs'], d['is_extent'], d, r)
+        if not w['ok']:
+            w['detail'] = f'history [{script}], phase {d["phase"]}, from_objects({d["sel"]}): ' + w['detail']
+            return w
+    return v
+
+
 def judge(c, io, rep):
     kind = c['kind']
     if kind in ('order', 'cross', 'porder'):
         if not rep:
             return _bad('property', 'pool-failed', f'building the pool failed: {io}')
         return _judge_cmp(c, io, rep[0], kind == 'porder')
+    if kind in ('history', 'phistory'):
+        return _judge_history(c, io, rep)
     r = rep[0]
     if kind == 'setattr' and c.get('mode') == 'del-assign':
         frozen = c['key'] in FROZEN[c['ckind']]
@@ -616,54 +1039,12 @@ def judge(c, io, rep):
             return _bad('correspondence', 'setattr-noeffect', f'{c["ckind"]}.{c["key"]}: assignment accepted but value not stored')
         return dict(ok=True)
     if kind == 'from_objects':
-        model, spec = r['model'], r['spec']
-        malformed = c['stream'] == 'malformed'
-        if 'err' in model:
-            if io.get('err') == model['err']:
-                return dict(ok=True)
-            return _bad('correspondence' if malformed else 'harness', 'from-err',
-                        f'model raises {model["err"]}, implementation gave {io}')
-        if 'err' in io:
-            return _bad('correspondence' if malformed else 'property', 'from-raised',
-                        f'from_objects raised {io["err"]}; the closure is {spec}')
-        got, mo = io['ok'], model['ok']
-        if not malformed:
-            if spec is None or mo['extent_i'] != spec['extent_i'] or mo['intent_i'] != spec['intent_i']:
-                return _bad('harness', 'model-spec', f'model {mo} != spec {spec}')
-            objs, attrs = c['objs'], c['attrs']
-            if sorted(got['extent_i']) != sorted(spec['extent_i']) or sorted(got['intent_i']) != sorted(spec['intent_i']):
-                return _bad('property', 'not-closure',
-                            f'from_objects gave extent {got["extent_i"]}, intent {got["intent_i"]}; closure is '
-                            f'{spec["extent_i"]}, {spec["intent_i"]}')
-            if len(set(got['extent_i'])) != len(got['extent_i']) and not c['is_extent']:
-                return _bad('property', 'dup-extent', f'extent with duplicates {got["extent_i"]}')
-            if got['extent'] != [objs[i] for i in got['extent_i']] or got['intent'] != [attrs[j] for j in got['intent_i']]:
-                return _bad('property', 'names', f'names do not match indexes: {got}')
-            if got['context_hash'] != io['h'] or got['is_monotone'] is not False:
-                return _bad('property', 'hash-field', f'context_hash/is_monotone wrong: {got} (hash_fixed={io["h"]})')
-        if got != mo:
-            return _bad('correspondence', 'from-fields', f'implementation {got} != model {mo}')
-        return dict(ok=True)
+        return _judge_from(c['stream'] == 'malformed', c['objs'], c['attrs'], c['is_extent'], io, r)
     if kind == 'pfrom':
-        model = r['model']
-        if 'err' in model:
-            if io.get('err') == model['err']:
-                return dict(ok=True)
-            return _bad('correspondence', 'pfrom-err', f'model raises {model["err"]}, implementation gave {io}')
-        if 'err' in io:
-            return _bad('property', 'pfrom-raised', f'PatternConcept.from_objects raised {io["err"]}')
-        got, mo = io['ok'], model['ok']
-        intent, ext = _closure_iv(c['cols'], c['sel'])
-        want_ext = sorted(c['sel']) if c['is_extent'] else ext
-        if sorted(got['extent_i']) != want_ext or got['intent_i'] != intent:
-            return _bad('property', 'pfrom-not-closure', f'gave extent {got["extent_i"]}, intent {got["intent_i"]}; closure is '
-                                                         f'{want_ext}, {intent}')
         n = len(c['cols'][0])
-        if got['extent'] != [OBJ[:n][i] for i in got['extent_i']] or not io['intent_names_ok'] or got['context_hash'] != io['h']:
-            return _bad('property', 'pfrom-names', f'names/hash do not match: {got}')
-        if got != mo:
-            return _bad('correspondence', 'pfrom-fields', f'implementation {got} != model {mo}')
-        return dict(ok=True)
+        return _judge_pfrom(c['cols'], OBJ[:n], io.get('arg_order', c['sel']), c['sel'], c['is_extent'], io, r)
+    if kind in ('history', 'phistory'):
+        return _judge_history(c, io, rep)
     return _bad('harness', 'kind', 'unknown kind')
 
 
@@ -671,8 +1052,10 @@ def judge(c, io, rep):
 
 def nontrivial(c):
     k = c['kind']
-    if k in ('order', 'cross'):
+    if k in ('order', 'cross', 'history'):
         return G.is_mixed(c['rows'])
+    if k == 'phistory':
+        return any(len({tuple(v) for v in col}) > 1 for col in c['cols'])
     if k == 'from_objects':
         return G.is_mixed(c['rows']) and len(c['sel']) > 0
     if k in ('porder', 'pfrom'):
@@ -688,7 +1071,9 @@ def key(c):
 def branch(c, io, rep):
     out = [c['stream'], 'kind:' + c['kind']]
     k = c['kind']
-    if k in ('order', 'cross', 'porder') and 'pool' in io:
+    if k in ('history', 'phistory'):
+        out.append('script:' + '+'.join(st[0] for st in c['script']))
+    if k in ('order', 'cross', 'porder', 'history', 'phistory') and 'pool' in io:
         pool = io['pool']
         n = len(pool)
         out.append('pool-size:%s' % ('<=4' if n <= 4 else '<=16' if n <= 16 else '<=64' if n <= 64 else '>64'))
@@ -706,12 +1091,15 @@ def branch(c, io, rep):
             out.append('strict-pairs')
         if any(p['m'] for p in pool):
             out.append('monotone-in-pool')
-        for s in {x.split(':')[1 if x.startswith('K') else 0] for p in pool for x in p['srcs']}:
+        for s in {x.split(':')[1 if x[:3] in ('K1:', 'K2:', 'P0:', 'P1:', 'P2:') else 0] for p in pool for x in p['srcs']}:
             out.append('src:' + s)
-        if k != 'porder':
+        if k not in ('porder', 'phistory'):
             out.append('be:' + c['be'])
     elif k in ('from_objects', 'pfrom'):
         out.append(('name' if c.get('by_name') else 'index') + (':is_extent' if c['is_extent'] else ''))
+        out.append('argform:' + c.get('argform', 'list'))
+        if len(set(c['sel'])) < len(c['sel']):
+            out.append('repeated-objects')
         out.append('err:' + io['err'] if 'err' in io else 'ok')
         if k == 'from_objects':
             out.append('be:' + c['be'])
@@ -734,8 +1122,32 @@ def _remap(sel, i):
 
 def shrink(c):
     k = c['kind']
+    if k in ('history', 'phistory'):
+        if len(c['script']) > 1:
+            for i in range(len(c['script'])):
+                yield dict(c, script=c['script'][:i] + c['script'][i + 1:])
+        for fk in ('fo1', 'fo2'):
+            fo = c[fk]
+            for i in range(len(fo)):
+                if len(fo) > 1:
+                    d = dict(c)
+                    d[fk] = fo[:i] + fo[i + 1:]
+                    yield d
+        if k == 'history' and not any(st[0] == 'data' for st in c['script']):
+            rows = c['rows']
+            n, m = len(rows), len(rows[0])
+            if n > 1:
+                for i in range(n):
+                    yield dict(c, rows=_drop_row(rows, i), fo1=[[_remap(s, i), b, e] for s, b, e in c['fo1']],
+                               fo2=[[_remap(s, i), b, e] for s, b, e in c['fo2']])
+            if m > 1:
+                for j in range(m):
+                    yield dict(c, rows=[r[:j] + r[j + 1:] for r in rows])
+        return
     if k in ('order', 'cross'):
         if k == 'order':
+            if c.get('paths'):
+                yield dict(c, paths=[])
             for mn in c['miners']:
                 if len(c['miners']) > 0:
                     yield dict(c, miners=[x for x in c['miners'] if x != mn])
